@@ -1452,10 +1452,12 @@ class TLSRecordLayer(object):
         self._defragmenter.clear_buffers()
         self.allegedSrpUsername = None
         self._refCount = 1
+        self._recordLayer.allow_plaintext_alert = True
 
     def _handshakeDone(self, resumed):
         self.resumed = resumed
         self.closed = False
+        self._recordLayer.allow_plaintext_alert = False
 
     def _calcPendingStates(self, cipherSuite, masterSecret,
                            clientRandom, serverRandom, implementations):
